@@ -311,11 +311,11 @@ class Keyword(Object):
 def strip_digit_separators(number):
     # Don't strip a _ or , if it's the first character, as _42 and
     # ,42 aren't valid numbers
-    return (
-        number[0] + number[1:].replace("_", "").replace(",", "")
-        if isinstance(number, str) and len(number) > 1
-        else number
-    )
+    # The same goes for the first character after a sign.
+    if isinstance(number, str) and len(number) > 1:
+        n = 2 if number[0] in "+-" else 1
+        return number[:n] + number[n:].replace("_", "").replace(",", "")
+    return number
 
 
 class Integer(Object, int):
